@@ -124,6 +124,7 @@ def judge(P, w, before, after, outcome, cfg, snap_diff, target_rel):
         return True
     try:
         after_tree = ast.parse(after)
+        compile(after, "<after doctrans>", "exec")  # (the compiler refuses more than the grammar does)
     except SyntaxError as e:
         dev("output-not-python", "file no longer parses after doctrans: %r" % (e,), error=repr(e))
         return False
